@@ -21,7 +21,7 @@ ENGINES = {
 }
 SETUP_ENGINES = ["node", "ext_c27", "shadow_crdt", "shadow_sync", "shadow_canonical", "ext_radicle", "shadow_limiter"]
 # replay include files that exist in harness sources of an engine but belong to no registered harness (yet)
-EXTRA_REPLAY_FILES = {"shadow_limiter": ["shadow_limiter"], "ext_radicle": ["ext_radicle"], "shadow_canonical": ["shadow_canonical"], "shadow_sync": ["shadow_sync"], "shadow_crdt": ["shadow_crdt"], "ext_c27": ["ext_c27"], "node": ["wire_c13", "wire_c14", "wire_c15", "service_c29", "limiter"]}
+EXTRA_REPLAY_FILES = {"shadow_limiter": ["shadow_limiter"], "ext_radicle": ["ext_radicle_c19", "ext_radicle_c21"], "shadow_canonical": ["shadow_canonical"], "shadow_sync": ["shadow_sync"], "shadow_crdt": ["shadow_crdt"], "ext_c27": ["ext_c27"], "node": ["wire_c13", "wire_c14", "wire_c15", "service_c29", "limiter"]}
 
 Q = ["quick", "thorough"]
 T = ["thorough"]
@@ -298,9 +298,9 @@ PROPERTIES["C03"] = {
 # C19 / C21 (external harness crate over the public API of the radicle crate)
 
 _F19 = ["radicle::identity::doc::Delegates::new", "radicle::identity::doc::Threshold::new", "radicle::identity::doc::Version::{new,is_valid_version}"]
-_c19h = [H("c19_version_new", "ext_radicle", "c19", "ext_radicle", tiers=Q, covers=1, functions=_F19, stubs=[], bounds="every u32 version number")]
+_c19h = [H("c19_version_new", "ext_radicle", "c19", "ext_radicle_c19", tiers=Q, covers=1, functions=_F19, stubs=[], bounds="every u32 version number")]
 for _p, _t in [("empty", Q), ("0", Q), ("00", Q), ("01", Q), ("000", T), ("001", Q), ("010", Q), ("011", T), ("012", Q), ("0120", T), ("0011", T), ("0101", T), ("0112", T)]:
-    _c19h.append(H(f"c19_delegates_{_p}", "ext_radicle", "c19", "ext_radicle", tiers=_t, covers=1, functions=_F19, stubs=[], timeout={"quick": 900, "thorough": 3000},
+    _c19h.append(H(f"c19_delegates_{_p}", "ext_radicle", "c19", "ext_radicle_c19", tiers=_t, covers=1, functions=_F19, stubs=[], timeout={"quick": 900, "thorough": 3000},
         bounds=f"delegate list with equality pattern [{_p}] over 3 concrete keys (entry i = key pattern[i]); threshold: every usize value"))
 PROPERTIES["C19"] = {
     "harnesses": _c19h,
@@ -312,11 +312,16 @@ PROPERTIES["C19"] = {
 _F21 = ["radicle::node::Alias::{from_str,as_str}", "core::str::from_utf8"]
 PROPERTIES["C21"] = {
     "harnesses": [
-        H(f"c21_alias_len{n}", "ext_radicle", "c21", "ext_radicle", tiers=(Q if n <= 2 else T), covers=1, functions=_F21, stubs=[], timeout={"quick": 900, "thorough": 3000},
+        H(f"c21_alias_len{n}", "ext_radicle", "c21", "ext_radicle_c21", tiers=(Q if n <= 2 else T), covers=1, functions=_F21, stubs=[], timeout={"quick": 900, "thorough": 3000},
           bounds=f"{n} fully symbolic bytes, restricted to valid UTF-8 by the real str::from_utf8: parse never panics, print(parse(s)) == s, re-parse is the identity, ASCII control/white-space bytes and empty input are rejected, printable ASCII is accepted")
         for n in (1, 2, 3)
+    ] + [
+        H(f"c21_public_key_payload_len{n}", "ext_radicle", "c21", "ext_radicle_c21", tiers=Q, covers=1, stubs=["multibase::decode -> arbitrary answer: error, or a payload of the given length with symbolic bytes"],
+          functions=["<radicle_crypto::PublicKey as FromStr>::from_str", "ed25519::PublicKey::from_slice"],
+          bounds=f"decoded multibase payload of {n} symbolic bytes (or a base-layer error): parsing never panics; a key is returned only for 34 bytes with the ed25519 multicodec prefix and is exactly the remaining 32 bytes")
+        for n in (0, 1, 2, 3, 33, 34)
     ],
-    "outside": ["public keys, DIDs and repository ids (multibase/base58 makes the Kani compiler panic and is a 32-byte big-number division loop)", "user agents (str::split / split_once over symbolic bytes does not finish in 900 s even at 1 symbolic byte)", "aliases longer than 3 bytes and the 32-byte limit", "Unicode (non-ASCII) control and white-space characters are only checked for not panicking"],
+    "outside": ["the base-58 layer of public keys and DIDs (multibase::decode is stubbed by an arbitrary payload: it makes the Kani compiler panic and is a 32-byte big-number division loop); printing keys (to_human) and repository ids", "user agents (str::split / split_once over symbolic bytes does not finish in 900 s even at 1 symbolic byte)", "aliases longer than 3 bytes and the 32-byte limit", "Unicode (non-ASCII) control and white-space characters are only checked for not panicking"],
     "assumptions": [],
 }
 
